@@ -1197,6 +1197,9 @@ def forward_substitute(fn):
             comp_names |= {a.arg for a in x.args.args}
     ssa = [0]
     real_now = [set()]
+    for x in ast.walk(fn):
+        if getattr(x, '_applied', False):
+            x._applied = False
 
     def mutated_in(name, stmts):
         """the object bound to the name is changed in place / may escape"""
@@ -1228,8 +1231,8 @@ def forward_substitute(fn):
                 if isinstance(p_, (ast.BinOp, ast.UnaryOp, ast.Compare,
                                    ast.BoolOp, ast.FormattedValue)):
                     continue
-                if isinstance(p_, ast.Subscript) and isinstance(
-                        p_.ctx, ast.Load):
+                if isinstance(p_, ast.Subscript) and (isinstance(
+                        p_.ctx, ast.Load) or p_.slice is x):
                     continue
                 if isinstance(p_, ast.Attribute) and isinstance(
                         p_.ctx, ast.Load):
@@ -1243,7 +1246,8 @@ def forward_substitute(fn):
                     base, nm_ = _call_name(p_)
                     if nm_ in ('asarray', 'atleast_1d', 'ravel', 'reshape',
                                'squeeze', 'real', 'transpose', 'list',
-                               'tuple', 'zip', 'enumerate', 'reversed'):
+                               'tuple', 'zip', 'enumerate', 'reversed') and \
+                            p_.args and p_.args[0] is x:
                         return False      # may hand back the same object
                     continue
                 if isinstance(p_, (ast.If, ast.IfExp)) and p_.test is x:
@@ -1336,8 +1340,9 @@ def forward_substitute(fn):
             st = rest[0]
             holder = None
             if isinstance(st, (ast.Return, ast.Expr)) or (
-                    isinstance(st, ast.Assign) and all(
-                        isinstance(t, ast.Name) for t in st.targets)):
+                    isinstance(st, ast.Assign) and not any(
+                        _loads_of(nm, [ast.Expr(t)]) for t in st.targets
+                        if not isinstance(t, ast.Name))):
                 holder = st.value
             elif isinstance(st, ast.If):
                 holder = st.test
@@ -1683,41 +1688,54 @@ def _path_uses(name, stmts):
     return n
 
 
-def _uses_before_effects(name, stmts):
-    """on every path every evaluation of the name happens before the first
-    statement with an effect has been executed (the statement that performs
-    the effect may itself evaluate the name: operands come first).
-    Returns (ok, an effect has happened on some path)"""
-    done = False
+def _uses_before_effects(name, stmts, done=False, seen=False):
+    """on every path the *first* evaluation of the name happens before any
+    statement with an effect has been executed (the statement performing the
+    effect may itself evaluate the name: operands come first); later
+    evaluations repeat one that already succeeded.
+    Returns (ok, effect happened on some path, evaluated on every path)"""
     for s in stmts:
+        if seen:
+            return True, done, True
         if isinstance(s, ast.If):
-            if done and _loads_of(name, [s]):
-                return False, True
-            if _is_effect(ast.Expr(s.test)):
-                if _loads_of(name, s.body + s.orelse):
-                    return False, True
-                done = True
+            if _loads_of(name, [ast.Expr(s.test)]):
+                if done:
+                    return False, True, True
+                seen = True
                 continue
-            a, da = _uses_before_effects(name, s.body)
-            b, db = _uses_before_effects(name, s.orelse)
+            if _is_effect(ast.Expr(s.test)):
+                done = True
+            a, da, sa = _uses_before_effects(name, s.body, done, seen)
+            b, db, sb = _uses_before_effects(name, s.orelse, done, seen)
             if not (a and b):
-                return False, True
+                return False, True, True
             done = done or da or db
+            seen = sa and sb
+            if not seen and (sa or sb) and (da or db or done):
+                # evaluated on one arm only: the other arm may reach a later
+                # use after an effect
+                pass
         elif isinstance(s, (ast.For, ast.Try, ast.With)):
-            if _loads_of(name, [s]) and (done or _is_effect(s)):
-                # the header of a loop may read it when nothing happened yet
+            if _loads_of(name, [s]):
                 hdr = s.iter if isinstance(s, ast.For) else None
-                inside = _loads_of(name, [s]) - (
-                    _loads_of(name, [ast.Expr(hdr)]) if hdr is not None
-                    else 0)
-                if done or inside:
-                    return False, True
+                in_hdr = hdr is not None and _loads_of(name, [ast.Expr(hdr)])
+                if done:
+                    return False, True, True
+                if in_hdr:
+                    seen = True
+                    continue
+                if _is_effect(s):
+                    return False, True, True
+                seen = True
             done = done or _is_effect(s)
         else:
-            if done and _loads_of(name, [s]):
-                return False, True
+            if _loads_of(name, [s]):
+                if done:
+                    return False, True, True
+                seen = True
+                continue
             done = done or _is_effect(s)
-    return True, done
+    return True, done, seen
 
 
 def _index_arithmetic(e):
